@@ -888,6 +888,13 @@ def run_batch(sc):
                 rec = {"iterations": it, "max_steps": ms, "period": per, "nproc": nproc, "spec_text": text,
                        "params": list(spec.params), "n_m": len(spec.mreps), "n_a": len(spec.areps)}
                 runs.append(rec)
+                import signal
+
+                # starting spawn workers on a loaded machine can outlast core's per-scenario watchdog
+                left = signal.alarm(0)
+                if left and nproc != 1:
+                    left = max(left, 180)
+                signal.alarm(left)
                 try:
                     rows = batch_run(cls, build_parameters(spec.params), number_processes=nproc, iterations=it,
                                      data_collection_period=per, max_steps=ms, display_progress=False)
@@ -1030,8 +1037,8 @@ def oracle_batch(sc, obs):
                         expected_total.append((*base, None, None))
         ScriptModel.instances.clear()
         # every combination x iteration exactly once (a run that never collected has no row to show)
-        if sorted(got) != sorted(d for d, h in ((freeze((i, dict(c))), hand[freeze(dict(c))]) for i in range(it) for c in combos)
-                                 if expected_rows(h, per)):
+        shown = [freeze((i, dict(c))) for i in range(it) for c in combos if expected_rows(hand[freeze(dict(c))], per)]
+        if sorted(got) != sorted(shown):
             bad.append(f"design: runs executed {sorted(got)[:4]}… are not the design {design[:4]}… once each")
         if len(by_run) != produced_runs:
             bad.append(f"runid: {len(by_run)} distinct RunIds for {produced_runs} runs")
@@ -1041,7 +1048,9 @@ def oracle_batch(sc, obs):
             if rec["distinct_models"] != len(rec["constructed"]):
                 bad.append("construct: a model instance was reused")
             for (steps, user_steps, running), kw in zip(rec["steps_taken"], rec["constructed"]):
-                h = hand[freeze(kw)]
+                h = hand.get(freeze(kw))
+                if h is None:
+                    continue  # not a configuration of the design: reported by the construct clause
                 if (steps, user_steps) != (h.steps, h.user_steps):
                     bad.append(f"steps: batch_run stepped the model to steps={steps} ({user_steps} step() calls), by hand "
                                f"(until it stops or max_steps={ms}) it is {h.steps} ({h.user_steps})")
@@ -1101,6 +1110,20 @@ def once_per_step(cs):
 
 # ----------------------------------------------------------------------------------------
 # entry points
+
+
+def guarded(oracle_fn):
+    """an oracle that cannot be evaluated (the implementation returned something of an unexpected shape) is a failed clause"""
+
+    def wrapped(sc, obs):
+        try:
+            return oracle_fn(sc, obs)
+        except Exception as e:  # noqa: BLE001
+            import traceback
+
+            return [f"unjudgeable: oracle raised {type(e).__name__}: {e} @ {traceback.format_exc().splitlines()[-3].strip()}"]
+
+    return wrapped
 
 
 def run_impl(sc):
@@ -1257,11 +1280,15 @@ def gen_batch_scenario(R, nprocs=(1,), small=False):
         head.append("mrep fn steps")
     nparams = R.choice([0, 1, 1, 2, 2, 3]) if not small else R.choice([0, 1, 2])
     pnames = R.sample(range(6), nparams)
+    plines = [gen_param(R, p) for p in pnames]
+    # parameters whose every value is a small int may drive repeat counts (keeps the programs small)
+    small_ints = [p for p, l in zip(pnames, plines) if all(t in ("i0", "i1", "i2", "i3") for t in l.split()[3:])]
 
-    def arg(default):
+    def arg(default, count=False):
         # an int position fed by a parameter (or a literal)
-        if pnames and R.random() < 0.5:
-            return f"${R.choice(pnames)}"
+        pool = small_ints if count else pnames
+        if pool and R.random() < 0.5:
+            return f"${R.choice(pool)}"
         return str(default)
 
     init = []
@@ -1270,7 +1297,7 @@ def gen_batch_scenario(R, nprocs=(1,), small=False):
     if R.random() < 0.3:
         init.append(f"mset {R.randrange(4)} {R.choice(LISTS)}")
     if R.random() < 0.85:
-        n = R.choice(["0", "1", "2", "3", arg(2)])
+        n = R.choice(["0", "1", "2", "3", arg(2, count=True)])
         init.append(f"rep {n} create {R.randrange(ncls)} 0={arg(1)} 1={R.choice(INTS)}")
     collect_init = R.random() < 0.5
     if collect_init:
@@ -1299,8 +1326,7 @@ def gen_batch_scenario(R, nprocs=(1,), small=False):
     if R.random() < 0.06:
         body.append("collect")  # twice per step: outside C13's quantifier, still tied to the model
     lines = ["scenario batch", *head, "init " + " ; ".join(init), "body " + " ; ".join(body)]
-    for p in pnames:
-        lines.append(gen_param(R, p))
+    lines += plines
     lines.append("kwargs")
     its = R.choice([1, 1, 2, 3]) if not small else R.choice([1, 2])
     ms = R.choice([0, 1, 2, 3, 4, 5, 6])
